@@ -321,6 +321,24 @@ def run(tier: str, seed: int) -> int:
                         "spatial L1 metrics have closed forms only on sign-definite fields; otherwise only axioms/scaling are checked",
                         "tolerance 2e-10 relative"]
     shutil.rmtree(work, ignore_errors=True)
+    # ---- default (float32) session: the same public calls on the same inputs in a float32 child process
+    from .. import xsession as _xs
+    import numpy as _np
+    _rng = _np.random.default_rng(seed + 77)
+    _cases = []
+    for _D, _N in ((1, 16), (2, 8), (3, 6), (1, 15), (2, 9)):
+        _u = _rng.standard_normal((2,) + (_N,) * _D)
+        _v = _rng.standard_normal((2,) + (_N,) * _D) * 0.7 + 0.2
+        for _nm, _meta in sorted(table.items()):
+            _kws = [dict(domain_extent=5.0)]
+            if _meta["fourier"]:
+                _kws.append(dict(domain_extent=5.0, low=1, high=3))
+                if _meta["deriv"] == "no":
+                    _kws.append(dict(domain_extent=0.7, derivative_order=1))
+            for _i, _kw in enumerate(_kws):
+                _cases.append(dict(id=f"{_nm}/{_D}/{_N}/{_i}", name="metrics." + _nm, args=[_u, _v], kw=_kw))
+        _cases.append(dict(id=f"correlation/{_D}/{_N}", name="metrics.correlation", args=[_u, _v], kw={}))
+    _xs.compare(run_, PID, _cases, work + "_xs")
     return run_.finish()
 
 
